@@ -1425,13 +1425,24 @@ class Macro:
             elif tok.token == "#":
                 if isinstance(self, MacroFunction):
                     self.has_strcat = True
-            elif isinstance(tok, Identifier):
-                arg_idx = self.which_arg(tok.token)
-                if arg_idx != -1:
-                    self.arg_needs_expansion[arg_idx] = True
             idx += 1
             res_tokens.append(tok)
         self.replacement = res_tokens
+
+        # An argument is macro-expanded before substitution only where its
+        # parameter is not an operand of # or ##
+        for idx, tok in enumerate(self.replacement):
+            arg_idx = self.which_arg(tok.token)
+            if arg_idx == -1 or not isinstance(tok, Identifier):
+                continue
+            if idx > 0 and self.replacement[idx - 1].token in ["#", "##"]:
+                continue
+            if (
+                idx + 1 < len(self.replacement)
+                and self.replacement[idx + 1].token == "##"
+            ):
+                continue
+            self.arg_needs_expansion[arg_idx] = True
 
     def __repr__(self):
         return _representation_string(self)
